@@ -157,6 +157,9 @@ func addPathValueToRowStructure(parent json.Structure, path ObjectPath, val valu
 	}
 
 	if path.Child == nil {
+		if _, ok := obj.Value(path.Name).(json.Object); ok {
+			return nil, errors.New(fmt.Sprintf("%q cannot be a value because it is already an object with members", path.Name))
+		}
 		obj.Add(path.Name, ParseValueToStructure(val))
 	} else {
 		valueStructure, err := addPathValueToRowStructure(obj.Value(path.Name), path.Child.(ObjectPath), val, fieldLen)
